@@ -81,17 +81,21 @@ Factor(c, x, e, m) ==
 (* range clause, not on the form of the statistic.                         *)
 (***************************************************************************)
 InvCap(T) == IF RIsZero(T) THEN One ELSE RMin(One, RDiv(One, T))
+\* Kaplan-Kolmogorov: the padded null conditional mean is negative, or it is zero while every padded value is
+\* at least g > 0 (the factor is a positive number over zero: the statistic is +infinity, the value 0).
+\* With g = 0 a zero mean and a zero draw give 0/0: that case stays undefined (KF-KK-NAN).
+KKImpossible(c, m) == RLt(RAdd(m, c.g), Zero) \/ (RIsZero(RAdd(m, c.g)) /\ RLt(Zero, c.g))
 PStep(c, m, T) ==
     CASE c.method \in {"ALPHA", "BETTING"} ->
             LET r == Region(c, m) IN
             IF r = "neg" THEN Zero ELSE IF r \in {"zero", "u", "gt"} THEN One ELSE InvCap(T)
-      [] c.method = "KK"   -> IF RLt(RAdd(m, c.g), Zero) THEN Zero ELSE InvCap(T)
+      [] c.method = "KK"   -> IF KKImpossible(c, m) THEN Zero ELSE InvCap(T)
       [] c.method = "SPRT" -> IF RLt(m, Zero) THEN Zero ELSE InvCap(T)
       [] OTHER             -> InvCap(T)
 \* does the region alone fix the reported value (statistic irrelevant)?
 RegionDecides(c, m) ==
     CASE c.method \in {"ALPHA", "BETTING"} -> Region(c, m) # "in"
-      [] c.method = "KK"   -> RLt(RAdd(m, c.g), Zero)
+      [] c.method = "KK"   -> KKImpossible(c, m)
       [] c.method = "SPRT" -> RLt(m, Zero)
       [] OTHER             -> FALSE
 \* the last entry is 0 when the observed total exceeds N t (ALPHA and betting only)
